@@ -505,6 +505,31 @@ func genSteps(t *rapid.T) []Step {
 	n := rapid.IntRange(1, 12).Draw(t, "n")
 	scratch, _ := newEnv("plain", 0)
 	var steps []Step
+	if rapid.IntRange(0, 2).Draw(t, "populated") == 0 {
+		// start from a non-empty directory (with a nested one sometimes), so that the operations that walk or move
+		// whole subtrees -- Rename of a directory, RemoveAll, listings -- have something to lose when a store call fails
+		d := rapid.SampledFrom(gen.Names).Draw(t, "pd")
+		pre := []ops.Op{{K: "mkdir", P: d, Perm: 0o755}, {K: "writefile", P: d + "/" + rapid.SampledFrom(gen.Names).Draw(t, "pf"), Perm: 0o644, Data: []byte("data")}}
+		if rapid.Bool().Draw(t, "nested") {
+			sub := d + "/" + rapid.SampledFrom(gen.Names).Draw(t, "ps")
+			pre = append(pre, ops.Op{K: "mkdirall", P: sub, Perm: 0o755}, ops.Op{K: "writefile", P: sub + "/" + rapid.SampledFrom(gen.Names).Draw(t, "pg"), Perm: 0o600, Data: []byte("deep")})
+		}
+		for _, op := range pre {
+			s := Step{Op: op}
+			_ = scratch.apply(s)
+			steps = append(steps, s)
+		}
+		// and aim one step at the directory itself
+		snap, _ := ops.SnapFS(scratch.fs)
+		tr := gen.TreeOf(snap)
+		k := rapid.SampledFrom([]string{"rename", "rename", "removeall", "readdir", "remove", "chmod"}).Draw(t, "pk")
+		s := Step{Op: ops.Op{K: k, P: d, Perm: 0o700}}
+		if k == "rename" {
+			s.P2 = gen.Second(t, tr, d, gen.Names, 2, true, "pp2")
+		}
+		_ = scratch.apply(s)
+		steps = append(steps, s)
+	}
 	for i := 0; i < n; i++ {
 		snap, _ := ops.SnapFS(scratch.fs)
 		if snap == nil {
